@@ -46,6 +46,20 @@ var corpus = []string{
 	"module m{namespace u;prefix p;container c{leaf a{type string;mandatory T;}}}\n// trailing",
 	"module m{namespace u;prefix p;choice c{case a{leaf x{type empty;}}leaf y{type boolean;}}}/* unclosed",
 	"module m{yang-version 1;namespace u;prefix p;typedef t{type t2;}typedef t{type string;}}",
+	// one module per kind of error raised after the statement has been read (the statement-level
+	// checks of parse/ast.go and parse/arg.go); every such error must name the input, a line and a column
+	"module m{namespace u;prefix p;\nrevision 2001-01-01;\nrevision 2002-02-02;}",
+	"module m{namespace u;prefix p;revision 2001-01-01;revision 2001-01-01;}",
+	"submodule s{belongs-to m{prefix p;}\nrevision 2001-01-01{description d;}revision 2002-02-02;}",
+	"module m{prefix p;namespace u;import x{prefix x;}\nnamespace v;}",
+	"module m{namespace u;prefix p;leaf a{type string;}\nimport x{prefix x;}}",
+	"module m{namespace u;prefix p;revision 2001-13-40;}",
+	"module m{namespace u;prefix p;foo bar;}",
+	"module m{namespace u;prefix p;leaf 1a{type string;}}",
+	"module m{namespace u;prefix p;list l{key \"a,b\";leaf a{type string;}}}",
+	"module m{namespace u;prefix p;leaf l{type int8{range \"a\";}}leaf n{type string{length \"1..\";}}}",
+	"module m{namespace u;prefix p;deviation /x{}leaf-list l{type string;min-elements -1;}}",
+	"module m{namespace u;prefix p;leaf l{type string;config T;status old;}}",
 }
 
 func init() {
